@@ -205,7 +205,7 @@ func (b *batch) absorb(res *childResult, hashFile string) {
 				b.extra["deadline_reached"] = true
 				continue
 			}
-			if k == "restart_after" {
+			if k == "restart_after" || k == "restart_from_group" {
 				continue
 			}
 			if f, ok := v.(float64); ok {
@@ -389,7 +389,9 @@ func fanOutEnum(b *batch, bin string, prop, tier string, shards int, env []strin
 		go func(sh int) {
 			defer wg.Done()
 			hashFile := filepath.Join(filepath.Dir(bin), fmt.Sprintf("hashes.enum.%s.%d", prop, sh))
-			args := []string{"enum", "--prop", prop, "--tier", tier, "--shard", fmt.Sprint(sh), "--shards", fmt.Sprint(shards), "--hashes", hashFile}
+			fromGroup := 0
+		again:
+			args := []string{"enum", "--prop", prop, "--tier", tier, "--shard", fmt.Sprint(sh), "--shards", fmt.Sprint(shards), "--hashes", hashFile, "--from-group", fmt.Sprint(fromGroup)}
 			boxFile := ""
 			if blackbox {
 				boxFile = filepath.Join(filepath.Dir(bin), fmt.Sprintf("blackbox.enum.%s.%d", prop, sh))
@@ -402,6 +404,15 @@ func fanOutEnum(b *batch, bin string, prop, tier string, shards int, env []strin
 			to := time.Until(deadline) + 45*time.Second
 			res := runChild(childOpts{bin: bin, args: args, env: env, timeout: to, memKB: memKB})
 			b.absorb(res, hashFile)
+			if res.summary != nil {
+				if rg, ok := res.summary.Extra["restart_from_group"].(float64); ok && int(rg) > fromGroup {
+					fromGroup = int(rg)
+					b.mu.Lock()
+					b.probes["process_restarted_after_budget_panic"]++
+					b.mu.Unlock()
+					goto again
+				}
+			}
 			if res.summary == nil {
 				b.mu.Lock()
 				if res.timedOut {
